@@ -475,6 +475,14 @@ def parse_file(text):
             if f:
                 funcs.setdefault(f.name, f)
             i = j + 1
+        elif ln.startswith('const ') and ln.rstrip().endswith(';') and ' = const ' in ln:
+            # one-line literal constant:  const NAME: TYPE = const VALUE;
+            head, val = ln.rstrip()[:-1].split(' = const ', 1)
+            body = [head + ' = {', '    let mut _0: x;', '', '    bb0: {', f'        _0 = const {val};', '        return;', '    }', '}']
+            f = _parse_function(body)
+            if f:
+                funcs.setdefault(f.name, f)
+            i += 1
         else:
             i += 1
     return funcs
